@@ -57,11 +57,11 @@ let run_nr kind toks =
          | Ok ((ll, x), st) -> Printf.sprintf "Ok %s %s | %s" (hx ll) (vs x) (show_nr st)
          | Err e -> "Err " ^ errname e)
       else
-        (* the table holds the function to minimise *)
-        (match minimize_scan numf (lookup tab) (fl tol) (z_of_int (int_of_string ms))
+        (* the table holds the log-likelihood ratio and its derivatives; TCLLHRatio.maximize with NR + scan *)
+        (match maximize_scan numf (lookup tab) (fl tol) (z_of_int (int_of_string ms))
                  (z_of_int (int_of_string mr)) bounds p2s unif ini with
-         | Ok (((x, f), st), reps) ->
-             Printf.sprintf "Ok %s %s %d | %s" (hx f) (vs x) (int_of_z reps) (show_nr st)
+         | Ok ((ll, x), st) ->
+             Printf.sprintf "Ok %s %s 0 | %s" (hx ll) (vs x) (show_nr st)
          | Err e -> "Err " ^ errname e)
   | _ -> "ERR"
 
